@@ -11,6 +11,35 @@ use std::sync::Arc;
 use std::task::{Context, Poll, Wake, Waker};
 use wtransport_proto::bytes::{AsyncRead, AsyncWrite};
 
+/// Per-thread counts of what the simulated source / sink actually did (one run = one thread).
+#[derive(Clone, Copy, Default, Debug)]
+pub struct IoStats {
+    pub pendings: u64,
+    pub pendings_without_wake: u64,
+    pub short_reads: u64,
+    pub ended_fin: u64,
+    pub ended_reset: u64,
+    pub ended_not_connected: u64,
+    pub short_writes: u64,
+    pub write_errors: u64,
+}
+
+thread_local! {
+    static STATS: std::cell::Cell<IoStats> = const { std::cell::Cell::new(IoStats { pendings: 0, pendings_without_wake: 0, short_reads: 0, ended_fin: 0, ended_reset: 0, ended_not_connected: 0, short_writes: 0, write_errors: 0 }) };
+}
+
+fn stat(f: impl FnOnce(&mut IoStats)) {
+    STATS.with(|s| {
+        let mut v = s.get();
+        f(&mut v);
+        s.set(v);
+    });
+}
+
+pub fn take_stats() -> IoStats {
+    STATS.with(|s| s.replace(IoStats::default()))
+}
+
 #[derive(Clone, Copy, Debug, PartialEq)]
 pub enum End {
     Fin,
@@ -50,11 +79,22 @@ impl AsyncRead for SimReader {
             // (a spurious poll is always legal)
             if this.rng.below(3) != 0 {
                 cx.waker().wake_by_ref();
+                stat(|s| s.pendings += 1);
+            } else {
+                stat(|s| {
+                    s.pendings += 1;
+                    s.pendings_without_wake += 1
+                });
             }
             return Poll::Pending;
         }
         let limit = this.end_at.min(this.data.len());
         if this.pos >= limit {
+            stat(|s| match this.end {
+                End::Fin => s.ended_fin += 1,
+                End::Reset => s.ended_reset += 1,
+                End::NotConnected => s.ended_not_connected += 1,
+            });
             return Poll::Ready(match this.end {
                 End::Fin => Ok(0),
                 End::Reset => Err(std::io::Error::new(std::io::ErrorKind::ConnectionReset, "sim reset")),
@@ -66,6 +106,9 @@ impl AsyncRead for SimReader {
         }
         let chunk = this.rng.usize(1, max_chunk);
         let n = buf.len().min(chunk).min(limit - this.pos);
+        if n < buf.len() {
+            stat(|s| s.short_reads += 1);
+        }
         let pos = this.pos;
         buf[..n].copy_from_slice(&this.data[pos..pos + n]);
         this.pos += n;
@@ -89,10 +132,12 @@ impl AsyncWrite for SimWriter {
         let (pending_pm, max_chunk) = (this.pending_pm, this.max_chunk.max(1));
         if this.rng.chance_pm(pending_pm) {
             cx.waker().wake_by_ref();
+            stat(|s| s.pendings += 1);
             return Poll::Pending;
         }
         if let Some(f) = this.fail_at {
             if this.out.len() >= f {
+                stat(|s| s.write_errors += 1);
                 return Poll::Ready(Err(match this.end {
                     End::Reset => std::io::Error::new(std::io::ErrorKind::ConnectionReset, "sim stop"),
                     _ => std::io::Error::new(std::io::ErrorKind::NotConnected, "sim not connected"),
@@ -104,6 +149,9 @@ impl AsyncWrite for SimWriter {
             n = n.min(f - this.out.len()).max(1);
         }
         let n = n.min(buf.len());
+        if n < buf.len() {
+            stat(|s| s.short_writes += 1);
+        }
         this.out.extend_from_slice(&buf[..n]);
         Poll::Ready(Ok(n))
     }
